@@ -294,8 +294,14 @@ class Run:
                                    f"workspace in {diff}: got {[str(view[k])[:120] for k in diff][:2]}, "
                                    f"expected {[str(self._expected()[k])[:120] for k in diff][:2]}",
                                    f"C08:observation-{name}-file:{diff[0] if diff else ''}")
-            # the live sessions too (their in-memory caches may hold removed jobs)
+            # the live sessions too (their in-memory caches may hold removed jobs) - but not after every
+            # step: looking at a session fills its in-memory cache, and update_cache() must also be met
+            # by sessions that have not yet seen the jobs added since they started
+            import random
+            coin = random.Random(f"{self.sc.get('seed', 0)}:live:{self.executed}")
             for si, sess in enumerate(self.sessions):
+                if coin.random() < 0.6:
+                    continue
                 live = self._view(f"live session {si}", sess)
                 if live != self._expected():
                     diff = [k for k in live if live[k] != self._expected().get(k)]
